@@ -26,6 +26,8 @@ import (
 
 	v3 "github.com/projectcalico/api/pkg/apis/projectcalico/v3"
 	"github.com/projectcalico/api/pkg/lib/numorstring"
+	kapiv1 "k8s.io/api/core/v1"
+	discovery "k8s.io/api/discovery/v1"
 	metav1 "k8s.io/apimachinery/pkg/apis/meta/v1"
 
 	"github.com/projectcalico/calico/lib/std/uniquelabels"
@@ -58,6 +60,7 @@ const (
 	ClassHostConfig    = "hostconfig"
 	ClassWireguard     = "wireguard"
 	ClassConfig        = "config"
+	ClassService       = "service"
 )
 
 // Value is one candidate value of a key.
@@ -332,6 +335,7 @@ type ruleSpec struct {
 	srcPorts, dstPorts, notSrcPorts, notDstPts []portSpec
 	icmpType, icmpCode                         *int
 	ipVersion                                  *int
+	srcService, dstService                     string // "namespace/name"
 }
 
 func (s ruleSpec) desc() string {
@@ -367,6 +371,8 @@ func (s ruleSpec) desc() string {
 	add("dport", pd(s.dstPorts))
 	add("!sport", pd(s.notSrcPorts))
 	add("!dport", pd(s.notDstPts))
+	add("srcSvc", s.srcService)
+	add("dstSvc", s.dstService)
 	if s.icmpType != nil {
 		add("icmpType", fmt.Sprint(*s.icmpType))
 	}
@@ -411,6 +417,14 @@ func (s ruleSpec) build() model.Rule {
 	}
 	if s.icmpCode != nil {
 		r.ICMPCode = iptr(*s.icmpCode)
+	}
+	if s.srcService != "" {
+		ns, n, _ := strings.Cut(s.srcService, "/")
+		r.SrcService, r.SrcServiceNamespace = n, ns
+	}
+	if s.dstService != "" {
+		ns, n, _ := strings.Cut(s.dstService, "/")
+		r.DstService, r.DstServiceNamespace = n, ns
 	}
 	return r
 }
@@ -489,8 +503,19 @@ func (g *gen) genRule() ruleSpec {
 	if r.Intn(8) == 0 {
 		s.ipVersion = iptr(pick(r, []int{4, 6}))
 	}
+	if g.u.Size.Routes && r.Intn(8) == 0 {
+		// service match: replaces the selector/net/port match of that side (as the v3 API requires)
+		svc := pick(r, serviceNames)
+		if r.Intn(2) == 0 {
+			s.dstService, s.dstSel, s.notDstSel, s.dstNets, s.dstPorts, s.notDstPts = svc, "", "", nil, nil, nil
+		} else {
+			s.srcService, s.srcSel, s.notSrcSel, s.srcNets, s.notSrcNets, s.srcPorts, s.notSrcPorts = svc, "", "", nil, nil, nil, nil
+		}
+	}
 	return s
 }
+
+var serviceNames = []string{"ns1/svc1", "ns1/svc2"}
 
 // genInvalidRule generates a rule that the backend validator rejects.
 func (g *gen) genInvalidRule() ruleSpec {
@@ -985,6 +1010,105 @@ func (g *gen) nodeValues(name string, n int) []Value {
 	return vals
 }
 
+func (g *gen) wireguardValues(n int) []Value {
+	r := g.r
+	var vals []Value
+	for i := 0; i < 3; i++ {
+		key4 := pick(r, []string{"", "pubkey-a", "pubkey-b"})
+		key6 := pick(r, []string{"", "", "pubkey6-a"})
+		ip4 := pick(r, []string{"", fmt.Sprintf("10.0.%d.100", n)})
+		ip6 := pick(r, []string{"", fmt.Sprintf("fd00::%d:100", n)})
+		desc := fmt.Sprintf("wireguard key4=%q ip4=%q key6=%q ip6=%q", key4, ip4, key6, ip6)
+		vals = append(vals, Value{Desc: desc, Valid: true, New: func() any {
+			w := &model.Wireguard{PublicKey: key4, PublicKeyV6: key6}
+			if ip4 != "" {
+				a := mustIP(ip4)
+				w.InterfaceIPv4Addr = &a
+			}
+			if ip6 != "" {
+				a := mustIP(ip6)
+				w.InterfaceIPv6Addr = &a
+			}
+			return w
+		}})
+	}
+	return vals
+}
+
+func (g *gen) serviceValues(ns, name string) []Value {
+	r := g.r
+	var vals []Value
+	for i := 0; i < 3; i++ {
+		cips := subset(r, []string{"10.96.0.10", "10.96.0.11", "fd96::10"}, 2)
+		typ := pick(r, []kapiv1.ServiceType{kapiv1.ServiceTypeClusterIP, kapiv1.ServiceTypeLoadBalancer, kapiv1.ServiceTypeNodePort})
+		port := int32(pick(r, []int{80, 443, 53}))
+		pr := pick(r, []kapiv1.Protocol{kapiv1.ProtocolTCP, kapiv1.ProtocolUDP})
+		ext := subset(r, []string{"1.2.3.4"}, 1)
+		desc := fmt.Sprintf("service %s/%s type=%s clusterIPs=%v port=%s/%d ext=%v", ns, name, typ, cips, pr, port, ext)
+		vals = append(vals, Value{Desc: desc, Valid: true, New: func() any {
+			return &kapiv1.Service{
+				ObjectMeta: metav1.ObjectMeta{Namespace: ns, Name: name},
+				Spec: kapiv1.ServiceSpec{Type: typ, ClusterIPs: append([]string(nil), cips...), ExternalIPs: append([]string(nil), ext...),
+					Ports: []kapiv1.ServicePort{{Port: port, Protocol: pr}}},
+			}
+		}})
+	}
+	return vals
+}
+
+func (g *gen) endpointSliceValues(ns, name string) []Value {
+	r := g.r
+	var vals []Value
+	for i := 0; i < 4; i++ {
+		// the owning service may change (the kubernetes.io/service-name label is mutable)
+		svc := strings.TrimPrefix(pick(r, serviceNames), ns+"/")
+		addrs := subset(r, []string{"10.0.0.1", "10.0.0.2", "10.0.1.1", "10.0.0.2", "fd00::1"}, 3)
+		nports := r.Intn(3)
+		ports := subset(r, []int{80, 443, 53}, nports)
+		pr := pick(r, []kapiv1.Protocol{kapiv1.ProtocolTCP, kapiv1.ProtocolUDP})
+		desc := fmt.Sprintf("endpointslice %s/%s svc=%s addrs=%v ports=%s/%v", ns, name, svc, addrs, pr, ports)
+		vals = append(vals, Value{Desc: desc, Valid: true, New: func() any {
+			es := &discovery.EndpointSlice{
+				ObjectMeta:  metav1.ObjectMeta{Namespace: ns, Name: name, Labels: map[string]string{"kubernetes.io/service-name": svc}},
+				AddressType: discovery.AddressTypeIPv4,
+			}
+			for _, a := range addrs {
+				es.Endpoints = append(es.Endpoints, discovery.Endpoint{Addresses: []string{a}})
+			}
+			for _, p := range ports {
+				pp, prr := int32(p), pr
+				es.Ports = append(es.Ports, discovery.EndpointPort{Port: &pp, Protocol: &prr})
+			}
+			return es
+		}})
+	}
+	return vals
+}
+
+func (g *gen) bgpConfigValues() []Value {
+	r := g.r
+	var vals []Value
+	for i := 0; i < 3; i++ {
+		cl := subset(r, []string{"10.96.0.0/12", "fd96::/112"}, 2)
+		ex := subset(r, []string{"1.2.3.0/24"}, 1)
+		desc := fmt.Sprintf("bgpconfig clusterIPs=%v externalIPs=%v", cl, ex)
+		vals = append(vals, Value{Desc: desc, Valid: true, New: func() any {
+			b := &v3.BGPConfiguration{
+				TypeMeta:   metav1.TypeMeta{Kind: v3.KindBGPConfiguration, APIVersion: v3.GroupVersionCurrent},
+				ObjectMeta: metav1.ObjectMeta{Name: "default"},
+			}
+			for _, c := range cl {
+				b.Spec.ServiceClusterIPs = append(b.Spec.ServiceClusterIPs, v3.ServiceClusterIPBlock{CIDR: c})
+			}
+			for _, c := range ex {
+				b.Spec.ServiceExternalIPs = append(b.Spec.ServiceExternalIPs, v3.ServiceExternalIPBlock{CIDR: c})
+			}
+			return b
+		}})
+	}
+	return vals
+}
+
 func stringValues(vs ...string) []Value {
 	var out []Value
 	for _, v := range vs {
@@ -1067,8 +1191,17 @@ func NewUniverse(r *rand.Rand, size Size) *Universe {
 					stringValues(fmt.Sprintf("fd00::%d:0", i), fmt.Sprintf("fd00::%d:1", i)))
 				add(model.HostConfigKey{Hostname: n, Name: "VXLANTunnelMACAddr"}, ClassHostConfig, false,
 					stringValues(fmt.Sprintf("66:00:00:00:00:0%d", i), fmt.Sprintf("66:00:00:00:01:0%d", i)))
+				add(model.WireguardKey{NodeName: n}, ClassWireguard, false, g.wireguardValues(i))
 			}
 		}
+		for _, sn := range serviceNames {
+			ns, name, _ := strings.Cut(sn, "/")
+			add(model.ResourceKey{Kind: model.KindKubernetesService, Namespace: ns, Name: name}, ClassService, false, g.serviceValues(ns, name))
+		}
+		for _, en := range []string{"eps1", "eps2"} {
+			add(model.ResourceKey{Kind: model.KindKubernetesEndpointSlice, Namespace: "ns1", Name: en}, ClassService, false, g.endpointSliceValues("ns1", en))
+		}
+		add(model.ResourceKey{Kind: v3.KindBGPConfiguration, Name: "default"}, ClassConfig, false, g.bgpConfigValues())
 	}
 	return u
 }
